@@ -120,10 +120,12 @@ struct elfdump_priv {
 	int num_load_sorted;
 	struct load_segment *load_sorted;
 	struct load_segment *last_load;
+	bool use_last_load;	/**< @c load_sorted is ordered and disjoint */
 
 	int num_load_vsorted;
 	struct load_segment *load_vsorted;
 	struct load_segment  *last_vload;
+	bool use_last_vload;	/**< @c load_vsorted is ordered and disjoint */
 
 	int num_note_segments;
 	struct load_segment *note_segments;
@@ -206,7 +208,7 @@ find_closest_mem_load(struct elfdump_priv *edp, kdump_paddr_t paddr,
 {
 	int i;
 
-	if (edp->last_load &&
+	if (edp->use_last_load && edp->last_load &&
 	    paddr >= edp->last_load->phys &&
 	    paddr - edp->last_load->phys < edp->last_load->memsz)
 		return edp->last_load;
@@ -234,7 +236,7 @@ find_closest_file_load(struct elfdump_priv *edp, kdump_paddr_t paddr,
 {
 	int i;
 
-	if (edp->last_load &&
+	if (edp->use_last_load && edp->last_load &&
 	    paddr >= edp->last_load->phys &&
 	    paddr - edp->last_load->phys < edp->last_load->filesz)
 		return edp->last_load;
@@ -262,7 +264,7 @@ find_closest_mem_vload(struct elfdump_priv *edp, kdump_vaddr_t vaddr,
 {
 	int i;
 
-	if (edp->last_vload &&
+	if (edp->use_last_vload && edp->last_vload &&
 	    vaddr >= edp->last_vload->virt &&
 	    vaddr - edp->last_vload->virt < edp->last_vload->memsz)
 		return edp->last_vload;
@@ -290,7 +292,7 @@ find_closest_file_vload(struct elfdump_priv *edp, kdump_vaddr_t vaddr,
 {
 	int i;
 
-	if (edp->last_vload &&
+	if (edp->use_last_vload && edp->last_vload &&
 	    vaddr >= edp->last_vload->virt &&
 	    vaddr - edp->last_vload->virt < edp->last_vload->filesz)
 		return edp->last_vload;
@@ -1431,6 +1433,34 @@ seg_virt_cmp(const void *a, const void *b)
 	return la->virt != lb->virt ? (la->virt < lb->virt ? -1 : 1) : 0;
 }
 
+/**  Check whether an array of LOAD segments is ordered and disjoint.
+ * @param seg   Array of LOAD segments.
+ * @param n     Number of segments in the array.
+ * @param virt  Use virtual (rather than physical) addresses.
+ * @returns     @c true if every segment starts at or above the end of
+ *              all preceding segments.
+ *
+ * Only in that case is the segment remembered from a previous lookup
+ * always the one that a linear search from the beginning would find.
+ */
+static bool
+loads_disjoint(const struct load_segment *seg, int n, bool virt)
+{
+	kdump_addr_t start, size, end = 0;
+	int i;
+
+	for (i = 0; i < n; ++i) {
+		start = virt ? seg[i].virt : seg[i].phys;
+		size = seg[i].memsz;
+		if (seg[i].filesz > 0 && (kdump_addr_t)seg[i].filesz > size)
+			size = seg[i].filesz;
+		if (start < end || start + size < start)
+			return false;
+		end = start + size;
+	}
+	return true;
+}
+
 static kdump_status
 open_common(kdump_ctx_t *ctx)
 {
@@ -1536,6 +1566,11 @@ open_common(kdump_ctx_t *ctx)
 		       edp->num_load_vsorted * sizeof(struct load_segment));
 	qsort(edp->load_vsorted, edp->num_load_segments,
 	      sizeof(struct load_segment), seg_virt_cmp);
+
+	edp->use_last_load = loads_disjoint(
+		edp->load_sorted, edp->num_load_sorted, false);
+	edp->use_last_vload = loads_disjoint(
+		edp->load_vsorted, edp->num_load_vsorted, true);
 
 	free(edp->load_segments);
 	edp->load_segments = edp->note_segments = NULL;
